@@ -307,7 +307,7 @@ pub fn done_event(run: usize, p: &Problem, st: &DefaultSettings<f64>, r: &SolveR
             "rthr_gap_rel": fj(st.reduced_tol_gap_rel * sl + 2.0 * o.obj_rho / gden),
             "pobj_lo": fj(plo), "pobj_hi": fj(phi), "dobj_lo": fj(dlo), "dobj_hi": fj(dhi),
             "pres_lo": fj(rplo), "pres_hi": fj(rphi), "dres_lo": fj(rdlo), "dres_hi": fj(rdhi),
-            "bz": fj(o.bz), "qx": fj(o.qx), "bz_s": fj(bz_s), "qx_s": fj(qx_s),
+            "bz": fj(o.bz), "qx": fj(o.qx), "bz_rho": fj(o.bz_rho), "qx_rho": fj(o.qx_rho), "bz_s": fj(bz_s), "qx_s": fj(qx_s),
             "lhs_p": fj(lhs_p), "lhs_d": fj(lhs_d),
             "f": cert(st.tol_infeas_abs, st.tol_infeas_rel),
             "r": cert(st.reduced_tol_infeas_abs, st.reduced_tol_infeas_rel),
